@@ -58,9 +58,11 @@ def parse(uri):
     return out
 
 
-def judge(run, drv, case, raw, path, version):
+def judge(run, drv, case, raw, path, version, uri=None):
     try:
-        if case.get("case_seed", 0) % 3 == 0:
+        if uri is not None:
+            pass
+        elif case.get("case_seed", 0) % 3 == 0:
             # the command line, sometimes verbose / quiet
             flag = [[], ["-v"], ["-q"]][(case.get("case_seed", 0) // 3) % 3]
             uri = impl.cli(flag + ["magnet", path, "--meta-version", str(version)])
@@ -223,6 +225,32 @@ def empty_payloads(run, drv, rng):
                 run.case(["empty", kind, single], True, sample=case, classes=["empty-payload"])
 
 
+def create_magnet(run, drv, rng):
+    """`create --magnet` prints the URI of the metafile it has just written (automatic version):
+    the same judgement as for the magnet command."""
+    from harness.common import write_tree
+    for ver in ("1", "2", "3"):
+        for flags in ([], ["-v"]):
+            with sandbox("c11c") as box:
+                root = os.path.join(box, "payload dir")
+                write_tree(root, [("a", b"abc" * 7000), ("b/c", b"")])
+                out = os.path.join(box, "o.torrent")
+                url = rng.choice(metas.URLS)
+                case = {"source": "create --magnet", "version": int(ver), "flags": flags, "tracker": url}
+                try:
+                    text = impl.cli_out(flags + ["create", "--magnet", "--meta-version", ver, "--prog", "0",
+                                                 "-o", out, root, "-a", url])
+                except BaseException as exc:  # noqa
+                    run.fail("impl-vs-spec", case, {"raised": repr(exc)[:200]})
+                    continue
+                uris = [ln for ln in text.splitlines() if ln.startswith("magnet:?")]
+                if not uris:
+                    run.fail("impl-vs-spec", case, {"why": "create --magnet printed no magnet URI"})
+                    continue
+                judge(run, drv, case, open(out, "rb").read(), out, 0, uri=uris[-1])
+                run.case(["create-magnet", ver, bool(flags)], True, sample=case, classes=["create --magnet"])
+
+
 def run(tier, seed, replay=None):
     run = Run("C11", tier, seed, RULE)
     drv = Driver()
@@ -233,6 +261,7 @@ def run(tier, seed, replay=None):
             run_case(run, drv, run.rng.randrange(10 ** 9))
         hostile_names(run, drv, run.rng)
         empty_payloads(run, drv, run.rng)
+        create_magnet(run, drv, run.rng)
     for (case, uri), req, out in drv.run():
         if out.startswith("ERR"):
             if os.environ.get("VERIF_DEV") and "bad-op" in out:
